@@ -15,6 +15,9 @@ theorem CT_AxDataSource_CT_AxDataSource_adequate : [row_CT_AxDataSource_CT_AxDat
 
 theorem CT_BackgroundProperties_CT_BackgroundProperties_adequate : [row_CT_BackgroundProperties_CT_BackgroundProperties_noFill, row_CT_BackgroundProperties_CT_BackgroundProperties_solidFill, row_CT_BackgroundProperties_CT_BackgroundProperties_gradFill, row_CT_BackgroundProperties_CT_BackgroundProperties_blipFill, row_CT_BackgroundProperties_CT_BackgroundProperties_pattFill, row_CT_BackgroundProperties_CT_BackgroundProperties_grpFill].all Row.adequate = true := by decide +kernel
 
+/-- the members of each choice group share the slot of the child switched to (hypothesis of `changeTo_sorted_of_groupOk`) -/
+theorem CT_BackgroundProperties_CT_BackgroundProperties_choice_groups : [(row_CT_BackgroundProperties_CT_BackgroundProperties_noFill, grp_CT_BackgroundProperties_CT_BackgroundProperties_noFill), (row_CT_BackgroundProperties_CT_BackgroundProperties_solidFill, grp_CT_BackgroundProperties_CT_BackgroundProperties_solidFill), (row_CT_BackgroundProperties_CT_BackgroundProperties_gradFill, grp_CT_BackgroundProperties_CT_BackgroundProperties_gradFill), (row_CT_BackgroundProperties_CT_BackgroundProperties_blipFill, grp_CT_BackgroundProperties_CT_BackgroundProperties_blipFill), (row_CT_BackgroundProperties_CT_BackgroundProperties_pattFill, grp_CT_BackgroundProperties_CT_BackgroundProperties_pattFill), (row_CT_BackgroundProperties_CT_BackgroundProperties_grpFill, grp_CT_BackgroundProperties_CT_BackgroundProperties_grpFill)].all (fun p => p.1.groupOk p.2) = true := by decide +kernel
+
 theorem CT_Background_CT_Background_adequate : [row_CT_Background_CT_Background_bgPr, row_CT_Background_CT_Background_bgRef].all Row.adequate = true := by decide +kernel
 
 theorem CT_BarChart_CT_BarChart_adequate : [row_CT_BarChart_CT_BarChart_grouping, row_CT_BarChart_CT_BarChart_varyColors, row_CT_BarChart_CT_BarChart_ser, row_CT_BarChart_CT_BarChart_dLbls, row_CT_BarChart_CT_BarChart_gapWidth, row_CT_BarChart_CT_BarChart_overlap].all Row.adequate = true := by decide +kernel
@@ -32,6 +35,9 @@ theorem CT_ChartSpace_CT_ChartSpace_adequate : [row_CT_ChartSpace_CT_ChartSpace_
 theorem CT_Chart_CT_Chart_adequate : [row_CT_Chart_CT_Chart_title, row_CT_Chart_CT_Chart_autoTitleDeleted, row_CT_Chart_CT_Chart_legend].all Row.adequate = true := by decide +kernel
 
 theorem CT_Color_CT_Color_adequate : [row_CT_Color_CT_Color_scrgbClr, row_CT_Color_CT_Color_srgbClr, row_CT_Color_CT_Color_hslClr, row_CT_Color_CT_Color_sysClr, row_CT_Color_CT_Color_schemeClr, row_CT_Color_CT_Color_prstClr].all Row.adequate = true := by decide +kernel
+
+/-- the members of each choice group share the slot of the child switched to (hypothesis of `changeTo_sorted_of_groupOk`) -/
+theorem CT_Color_CT_Color_choice_groups : [(row_CT_Color_CT_Color_scrgbClr, grp_CT_Color_CT_Color_scrgbClr), (row_CT_Color_CT_Color_srgbClr, grp_CT_Color_CT_Color_srgbClr), (row_CT_Color_CT_Color_hslClr, grp_CT_Color_CT_Color_hslClr), (row_CT_Color_CT_Color_sysClr, grp_CT_Color_CT_Color_sysClr), (row_CT_Color_CT_Color_schemeClr, grp_CT_Color_CT_Color_schemeClr), (row_CT_Color_CT_Color_prstClr, grp_CT_Color_CT_Color_prstClr)].all (fun p => p.1.groupOk p.2) = true := by decide +kernel
 
 theorem CT_CommonSlideData_CT_CommonSlideData_adequate : [row_CT_CommonSlideData_CT_CommonSlideData_bg].all Row.adequate = true := by decide +kernel
 
@@ -57,6 +63,9 @@ theorem CT_GradientStopList_CT_GradientStopList_adequate : [row_CT_GradientStopL
 
 theorem CT_GradientStop_CT_GradientStop_adequate : [row_CT_GradientStop_CT_GradientStop_scrgbClr, row_CT_GradientStop_CT_GradientStop_srgbClr, row_CT_GradientStop_CT_GradientStop_hslClr, row_CT_GradientStop_CT_GradientStop_sysClr, row_CT_GradientStop_CT_GradientStop_schemeClr, row_CT_GradientStop_CT_GradientStop_prstClr].all Row.adequate = true := by decide +kernel
 
+/-- the members of each choice group share the slot of the child switched to (hypothesis of `changeTo_sorted_of_groupOk`) -/
+theorem CT_GradientStop_CT_GradientStop_choice_groups : [(row_CT_GradientStop_CT_GradientStop_scrgbClr, grp_CT_GradientStop_CT_GradientStop_scrgbClr), (row_CT_GradientStop_CT_GradientStop_srgbClr, grp_CT_GradientStop_CT_GradientStop_srgbClr), (row_CT_GradientStop_CT_GradientStop_hslClr, grp_CT_GradientStop_CT_GradientStop_hslClr), (row_CT_GradientStop_CT_GradientStop_sysClr, grp_CT_GradientStop_CT_GradientStop_sysClr), (row_CT_GradientStop_CT_GradientStop_schemeClr, grp_CT_GradientStop_CT_GradientStop_schemeClr), (row_CT_GradientStop_CT_GradientStop_prstClr, grp_CT_GradientStop_CT_GradientStop_prstClr)].all (fun p => p.1.groupOk p.2) = true := by decide +kernel
+
 theorem CT_GroupShapeProperties_CT_GroupShapeProperties_adequate : [row_CT_GroupShapeProperties_CT_GroupShapeProperties_xfrm, row_CT_GroupShapeProperties_CT_GroupShapeProperties_effectLst].all Row.adequate = true := by decide +kernel
 
 theorem CT_HslColor_CT_HslColor_adequate : [row_CT_HslColor_CT_HslColor_lumMod, row_CT_HslColor_CT_HslColor_lumOff].all Row.adequate = true := by decide +kernel
@@ -68,6 +77,9 @@ theorem CT_Legend_CT_Legend_adequate : [row_CT_Legend_CT_Legend_legendPos, row_C
 theorem CT_LineChart_CT_LineChart_adequate : [row_CT_LineChart_CT_LineChart_grouping, row_CT_LineChart_CT_LineChart_varyColors, row_CT_LineChart_CT_LineChart_ser, row_CT_LineChart_CT_LineChart_dLbls].all Row.adequate = true := by decide +kernel
 
 theorem CT_LineProperties_CT_LineProperties_adequate : [row_CT_LineProperties_CT_LineProperties_noFill, row_CT_LineProperties_CT_LineProperties_solidFill, row_CT_LineProperties_CT_LineProperties_gradFill, row_CT_LineProperties_CT_LineProperties_pattFill, row_CT_LineProperties_CT_LineProperties_prstDash, row_CT_LineProperties_CT_LineProperties_custDash].all Row.adequate = true := by decide +kernel
+
+/-- the members of each choice group share the slot of the child switched to (hypothesis of `changeTo_sorted_of_groupOk`) -/
+theorem CT_LineProperties_CT_LineProperties_choice_groups : [(row_CT_LineProperties_CT_LineProperties_noFill, grp_CT_LineProperties_CT_LineProperties_noFill), (row_CT_LineProperties_CT_LineProperties_solidFill, grp_CT_LineProperties_CT_LineProperties_solidFill), (row_CT_LineProperties_CT_LineProperties_gradFill, grp_CT_LineProperties_CT_LineProperties_gradFill), (row_CT_LineProperties_CT_LineProperties_pattFill, grp_CT_LineProperties_CT_LineProperties_pattFill)].all (fun p => p.1.groupOk p.2) = true := by decide +kernel
 
 theorem CT_Lvl_CT_Lvl_adequate : [row_CT_Lvl_CT_Lvl_pt].all Row.adequate = true := by decide +kernel
 
@@ -133,6 +145,9 @@ theorem CT_SeriesComposite_CT_SurfaceSer_adequate : [row_CT_SeriesComposite_CT_S
 
 theorem CT_ShapeProperties_CT_ShapeProperties_adequate : [row_CT_ShapeProperties_CT_ShapeProperties_xfrm, row_CT_ShapeProperties_CT_ShapeProperties_custGeom, row_CT_ShapeProperties_CT_ShapeProperties_prstGeom, row_CT_ShapeProperties_CT_ShapeProperties_noFill, row_CT_ShapeProperties_CT_ShapeProperties_solidFill, row_CT_ShapeProperties_CT_ShapeProperties_gradFill, row_CT_ShapeProperties_CT_ShapeProperties_blipFill, row_CT_ShapeProperties_CT_ShapeProperties_pattFill, row_CT_ShapeProperties_CT_ShapeProperties_grpFill, row_CT_ShapeProperties_CT_ShapeProperties_ln, row_CT_ShapeProperties_CT_ShapeProperties_effectLst].all Row.adequate = true := by decide +kernel
 
+/-- the members of each choice group share the slot of the child switched to (hypothesis of `changeTo_sorted_of_groupOk`) -/
+theorem CT_ShapeProperties_CT_ShapeProperties_choice_groups : [(row_CT_ShapeProperties_CT_ShapeProperties_noFill, grp_CT_ShapeProperties_CT_ShapeProperties_noFill), (row_CT_ShapeProperties_CT_ShapeProperties_solidFill, grp_CT_ShapeProperties_CT_ShapeProperties_solidFill), (row_CT_ShapeProperties_CT_ShapeProperties_gradFill, grp_CT_ShapeProperties_CT_ShapeProperties_gradFill), (row_CT_ShapeProperties_CT_ShapeProperties_blipFill, grp_CT_ShapeProperties_CT_ShapeProperties_blipFill), (row_CT_ShapeProperties_CT_ShapeProperties_pattFill, grp_CT_ShapeProperties_CT_ShapeProperties_pattFill), (row_CT_ShapeProperties_CT_ShapeProperties_grpFill, grp_CT_ShapeProperties_CT_ShapeProperties_grpFill)].all (fun p => p.1.groupOk p.2) = true := by decide +kernel
+
 theorem CT_Shape_CT_Shape_adequate : [row_CT_Shape_CT_Shape_txBody].all Row.adequate = true := by decide +kernel
 
 theorem CT_SlideIdList_CT_SlideIdList_adequate : [row_CT_SlideIdList_CT_SlideIdList_sldId].all Row.adequate = true := by decide +kernel
@@ -149,9 +164,15 @@ theorem CT_Slide_CT_Slide_adequate : [row_CT_Slide_CT_Slide_clrMapOvr, row_CT_Sl
 
 theorem CT_SolidColorFillProperties_CT_SolidColorFillProperties_adequate : [row_CT_SolidColorFillProperties_CT_SolidColorFillProperties_scrgbClr, row_CT_SolidColorFillProperties_CT_SolidColorFillProperties_srgbClr, row_CT_SolidColorFillProperties_CT_SolidColorFillProperties_hslClr, row_CT_SolidColorFillProperties_CT_SolidColorFillProperties_sysClr, row_CT_SolidColorFillProperties_CT_SolidColorFillProperties_schemeClr, row_CT_SolidColorFillProperties_CT_SolidColorFillProperties_prstClr].all Row.adequate = true := by decide +kernel
 
+/-- the members of each choice group share the slot of the child switched to (hypothesis of `changeTo_sorted_of_groupOk`) -/
+theorem CT_SolidColorFillProperties_CT_SolidColorFillProperties_choice_groups : [(row_CT_SolidColorFillProperties_CT_SolidColorFillProperties_scrgbClr, grp_CT_SolidColorFillProperties_CT_SolidColorFillProperties_scrgbClr), (row_CT_SolidColorFillProperties_CT_SolidColorFillProperties_srgbClr, grp_CT_SolidColorFillProperties_CT_SolidColorFillProperties_srgbClr), (row_CT_SolidColorFillProperties_CT_SolidColorFillProperties_hslClr, grp_CT_SolidColorFillProperties_CT_SolidColorFillProperties_hslClr), (row_CT_SolidColorFillProperties_CT_SolidColorFillProperties_sysClr, grp_CT_SolidColorFillProperties_CT_SolidColorFillProperties_sysClr), (row_CT_SolidColorFillProperties_CT_SolidColorFillProperties_schemeClr, grp_CT_SolidColorFillProperties_CT_SolidColorFillProperties_schemeClr), (row_CT_SolidColorFillProperties_CT_SolidColorFillProperties_prstClr, grp_CT_SolidColorFillProperties_CT_SolidColorFillProperties_prstClr)].all (fun p => p.1.groupOk p.2) = true := by decide +kernel
+
 theorem CT_SystemColor_CT_SystemColor_adequate : [row_CT_SystemColor_CT_SystemColor_lumMod, row_CT_SystemColor_CT_SystemColor_lumOff].all Row.adequate = true := by decide +kernel
 
 theorem CT_TableCellProperties_CT_TableCellProperties_adequate : [row_CT_TableCellProperties_CT_TableCellProperties_noFill, row_CT_TableCellProperties_CT_TableCellProperties_solidFill, row_CT_TableCellProperties_CT_TableCellProperties_gradFill, row_CT_TableCellProperties_CT_TableCellProperties_blipFill, row_CT_TableCellProperties_CT_TableCellProperties_pattFill, row_CT_TableCellProperties_CT_TableCellProperties_grpFill].all Row.adequate = true := by decide +kernel
+
+/-- the members of each choice group share the slot of the child switched to (hypothesis of `changeTo_sorted_of_groupOk`) -/
+theorem CT_TableCellProperties_CT_TableCellProperties_choice_groups : [(row_CT_TableCellProperties_CT_TableCellProperties_noFill, grp_CT_TableCellProperties_CT_TableCellProperties_noFill), (row_CT_TableCellProperties_CT_TableCellProperties_solidFill, grp_CT_TableCellProperties_CT_TableCellProperties_solidFill), (row_CT_TableCellProperties_CT_TableCellProperties_gradFill, grp_CT_TableCellProperties_CT_TableCellProperties_gradFill), (row_CT_TableCellProperties_CT_TableCellProperties_blipFill, grp_CT_TableCellProperties_CT_TableCellProperties_blipFill), (row_CT_TableCellProperties_CT_TableCellProperties_pattFill, grp_CT_TableCellProperties_CT_TableCellProperties_pattFill), (row_CT_TableCellProperties_CT_TableCellProperties_grpFill, grp_CT_TableCellProperties_CT_TableCellProperties_grpFill)].all (fun p => p.1.groupOk p.2) = true := by decide +kernel
 
 theorem CT_TableCell_CT_TableCell_adequate : [row_CT_TableCell_CT_TableCell_txBody, row_CT_TableCell_CT_TableCell_tcPr].all Row.adequate = true := by decide +kernel
 
@@ -163,9 +184,15 @@ theorem CT_Table_CT_Table_adequate : [row_CT_Table_CT_Table_tblPr, row_CT_Table_
 
 theorem CT_TextBodyProperties_CT_TextBodyProperties_adequate : [row_CT_TextBodyProperties_CT_TextBodyProperties_noAutofit, row_CT_TextBodyProperties_CT_TextBodyProperties_normAutofit, row_CT_TextBodyProperties_CT_TextBodyProperties_spAutoFit].all Row.adequate = true := by decide +kernel
 
+/-- the members of each choice group share the slot of the child switched to (hypothesis of `changeTo_sorted_of_groupOk`) -/
+theorem CT_TextBodyProperties_CT_TextBodyProperties_choice_groups : [(row_CT_TextBodyProperties_CT_TextBodyProperties_noAutofit, grp_CT_TextBodyProperties_CT_TextBodyProperties_noAutofit), (row_CT_TextBodyProperties_CT_TextBodyProperties_normAutofit, grp_CT_TextBodyProperties_CT_TextBodyProperties_normAutofit), (row_CT_TextBodyProperties_CT_TextBodyProperties_spAutoFit, grp_CT_TextBodyProperties_CT_TextBodyProperties_spAutoFit)].all (fun p => p.1.groupOk p.2) = true := by decide +kernel
+
 theorem CT_TextBody_CT_TextBody_adequate : [row_CT_TextBody_CT_TextBody_p].all Row.adequate = true := by decide +kernel
 
 theorem CT_TextCharacterProperties_CT_TextCharacterProperties_adequate : [row_CT_TextCharacterProperties_CT_TextCharacterProperties_noFill, row_CT_TextCharacterProperties_CT_TextCharacterProperties_solidFill, row_CT_TextCharacterProperties_CT_TextCharacterProperties_gradFill, row_CT_TextCharacterProperties_CT_TextCharacterProperties_blipFill, row_CT_TextCharacterProperties_CT_TextCharacterProperties_pattFill, row_CT_TextCharacterProperties_CT_TextCharacterProperties_grpFill, row_CT_TextCharacterProperties_CT_TextCharacterProperties_latin, row_CT_TextCharacterProperties_CT_TextCharacterProperties_hlinkClick].all Row.adequate = true := by decide +kernel
+
+/-- the members of each choice group share the slot of the child switched to (hypothesis of `changeTo_sorted_of_groupOk`) -/
+theorem CT_TextCharacterProperties_CT_TextCharacterProperties_choice_groups : [(row_CT_TextCharacterProperties_CT_TextCharacterProperties_noFill, grp_CT_TextCharacterProperties_CT_TextCharacterProperties_noFill), (row_CT_TextCharacterProperties_CT_TextCharacterProperties_solidFill, grp_CT_TextCharacterProperties_CT_TextCharacterProperties_solidFill), (row_CT_TextCharacterProperties_CT_TextCharacterProperties_gradFill, grp_CT_TextCharacterProperties_CT_TextCharacterProperties_gradFill), (row_CT_TextCharacterProperties_CT_TextCharacterProperties_blipFill, grp_CT_TextCharacterProperties_CT_TextCharacterProperties_blipFill), (row_CT_TextCharacterProperties_CT_TextCharacterProperties_pattFill, grp_CT_TextCharacterProperties_CT_TextCharacterProperties_pattFill), (row_CT_TextCharacterProperties_CT_TextCharacterProperties_grpFill, grp_CT_TextCharacterProperties_CT_TextCharacterProperties_grpFill)].all (fun p => p.1.groupOk p.2) = true := by decide +kernel
 
 theorem CT_TextField_CT_TextField_adequate : [row_CT_TextField_CT_TextField_rPr, row_CT_TextField_CT_TextField_t].all Row.adequate = true := by decide +kernel
 
